@@ -208,3 +208,70 @@ def virtual_pool(schedule):
         yield log
     finally:
         rep.mp = old
+
+
+# --------------------------------------------------------------------------
+# stub network
+
+
+class _Resp:
+    def __init__(self, code, body, fail_read=None):
+        self.code, self.body, self.fail_read = code, body, fail_read
+
+    def __enter__(self):
+        return self
+
+    def __exit__(self, *a):
+        return False
+
+    def getcode(self):
+        return self.code
+
+    @property
+    def status(self):
+        return self.code
+
+    def read(self, *a):
+        if self.fail_read is not None:
+            raise self.fail_read
+        return self.body
+
+
+@contextlib.contextmanager
+def stub_net(outcome_of):
+    """Replace urllib.request.urlopen (as used by reuse.download).
+    outcome_of(identifier) -> ('ok', bytes) | ('http', code) | ('urlerror',) |
+    ('status', code) | ('reset',) | ('notutf8',).  Yields the list of
+    requested URLs."""
+    import urllib.error
+    import urllib.request
+
+    log = []
+    real = urllib.request.urlopen
+
+    def fake(url, *a, **kw):
+        u = url if isinstance(url, str) else url.full_url
+        log.append(u)
+        ident = u.rsplit("/", 1)[-1]
+        ident = ident[:-4] if ident.endswith(".txt") else ident
+        o = outcome_of(ident)
+        kind = o[0]
+        if kind == "ok":
+            return _Resp(200, o[1])
+        if kind == "http":
+            raise urllib.error.HTTPError(u, o[1], "stub", None, None)
+        if kind == "urlerror":
+            raise urllib.error.URLError("stub: connection refused")
+        if kind == "status":
+            return _Resp(o[1], b"")
+        if kind == "reset":
+            return _Resp(200, b"", fail_read=ConnectionResetError(104, "stub: connection reset by peer"))
+        if kind == "notutf8":
+            return _Resp(200, b"\xff\xfe licence \xe9 text")
+        raise AssertionError(o)
+
+    urllib.request.urlopen = fake
+    try:
+        yield log
+    finally:
+        urllib.request.urlopen = real
